@@ -112,6 +112,11 @@ inline void raw_deallocate(int mgr, void* p, size_t size) noexcept
 	unsigned char* base = static_cast<unsigned char*>(p) - RZ;
 	for (size_t i = 0; i < RZ; ++i)
 		if (base[i] != RZBYTE || base[RZ + it->second.size + i] != RZBYTE) { w.error("red zone overwritten around block b" + std::to_string(it->second.id)); break; }
+	{	// a block must not be given back while instrumented elements still live inside it (added for C03)
+		auto lo = w.objs.lower_bound(p);
+		if (lo != w.objs.end() && static_cast<const unsigned char*>(lo->first) < static_cast<const unsigned char*>(p) + it->second.size)
+			w.error("block b" + std::to_string(it->second.id) + " returned while a live element is stored in it");
+	}
 	w.ev("D m" + std::to_string(mgr) + " b" + std::to_string(it->second.id) + " " + std::to_string(size));
 	w.eev('D', uint64_t(mgr), it->second.id, size); if (w.elogging) w.dead_block_id[p] = it->second.id;
 	w.bytes_live -= it->second.size; ++w.n_dealloc;
